@@ -10,7 +10,7 @@ import math
 from .geom import enc, well_id
 from .world import COMPONENTS, snap, snap_down
 
-LABELS = [None, None, "", "step", "mix 1", "Transfer µL", "two\nlines", " padded label ", "L" * 40, "100%", "add {M9}", "{}", "50 % (v/v) }", "3 LVH steps", "prep (2 LVH steps)"]
+LABELS = [None, None, "", "step", "mix 1", "Transfer µL", "two\nlines", " padded label ", "L" * 40, "100%", "add {M9}", "{}", "50 % (v/v) }", "3 LVH steps", "prep (2 LVH steps)", "t", "st", "a"]
 LIQUID_CLASSES = ["", "Water_DispZmax", "lc 1", "Ethanol"]
 WASHES = [1, 1, 2, 3, 4, "flush", "reuse"]
 PARTS = ["auto", "auto", "source", "destination"]
